@@ -2,6 +2,7 @@
   C10 — transactions (DeliverTx / CheckTx) never touch the validator lists or the active parameters.
 -/
 import Rigo.Block
+import RigoProofs.TxRecv
 open Std
 
 namespace Rigo.TM
@@ -188,8 +189,8 @@ theorem runTrx_vl (s : St) (exec : Bool) (height : Int) (tx : TxIn) (rcv : Accou
   rw [if_neg c8] at h
   cases h
 
-theorem handleTx_vl (s : St) (exec : Bool) (height : Int) (tx : TxIn) : VL (handleTx s exec height tx).1 = VL s := by
-  unfold handleTx
+theorem handleTxOld_vl (s : St) (exec : Bool) (height : Int) (tx : TxIn) : VL (handleTxOld s exec height tx).1 = VL s := by
+  unfold handleTxOld
   simp only
   split
   · rfl
@@ -208,6 +209,11 @@ theorem handleTx_vl (s : St) (exec : Bool) (height : Int) (tx : TxIn) : VL (hand
           exact (runTrx_vl _ _ _ _ _ _ hr).trans h1
         · rename_i s2 _ hr
           exact (runTrx_vl _ _ _ _ _ _ hr).trans h1
+
+theorem handleTx_vl (s : St) (exec : Bool) (height : Int) (tx : TxIn) : VL (handleTx s exec height tx).1 = VL s := by
+  by_cases hl : byteLen tx.to = 20
+  · rw [handleTx_goodlen hl]; exact handleTxOld_vl s exec height tx
+  · rw [handleTx_badlen_fst hl]
 
 theorem deliverTx_vl (s : St) (tx : TxIn) : VL (deliverTx s tx).1 = VL s := by
   unfold deliverTx
